@@ -27,6 +27,7 @@ pub mod lostkeys;
 pub mod addrval;
 pub mod scen_conn;
 pub mod scen_determ;
+pub mod scen_vnretry;
 pub mod scenarios;
 pub mod sim;
 pub mod workload;
